@@ -215,3 +215,8 @@ func verifConstRound(c any) (any, bool, bool) {
 //@ func New
 //@ props C05
 //@ invariant[C05.new.sorted] 2: c != nil && forall(i, 0, len(c.globalNames), forall(j, i, len(c.globalNames), c.globalNames[i] <= c.globalNames[j]))
+
+// C09: compiled code is shared read-only between VMs. All fields of Code are unexported; the functions that write
+// them (directly, through an element of a slice field, or through the field of a loop record) are the
+// compiler's own construction functions and the loader - none of them is reachable from package vm (scan there).
+//@ scan[C09.code.writers] C09 fieldwriters Code.*: compiler.(*Code).addName compiler.(*Code).newChild compiler.(*Compiler).Compile compiler.(*Compiler).changeOperand compiler.(*Compiler).compileBlock compiler.(*Compiler).compileFor compiler.(*Compiler).compileForCondition compiler.(*Compiler).compileForIn compiler.(*Compiler).compileForRange compiler.(*Compiler).compileFunctionBlock compiler.(*Compiler).compilePipe compiler.(*Compiler).compileSimpleFor compiler.(*Compiler).constant compiler.(*Compiler).emit compiler.(*Compiler).startLoop compiler.(*loop).end compiler.New compiler.codeFromState
